@@ -85,11 +85,17 @@ ParamsOK(route, p) ==
      \E c \in Captures(route.expr, p) :
         c[1] = route.params[k].name /\ c[2] \in ToSet(route.params[k].accepts)
 
+(* path_params see the captured values the way the rule's encoded-slash   *)
+(* setting exposes them: with "on" an in-segment slash is decoded          *)
+(* (req.pathOn, when the request carries one), otherwise it stays encoded  *)
+ParamPath(rule, req) ==
+  IF "pathOn" \in DOMAIN req /\ "slash" \in DOMAIN rule /\ rule.slash = "on" THEN req.pathOn ELSE req.path
+
 RouteMatches(rule, route, req) ==
   /\ (rule.scheme = "" \/ rule.scheme = req.scheme)
   /\ MethodOK(rule.methods, req.method)
   /\ HostOK(rule.hosts, req.host)
-  /\ ParamsOK(route, req.path)
+  /\ ParamsOK(route, ParamPath(rule, req))
 
 (* ------------------------------- lookup -------------------------------- *)
 
